@@ -23,6 +23,9 @@ Applies(k, f, g) ==
       [] k \in {"get_after_fail", "varget_after_fail"} -> TRUE
       [] k \in {"forall_foreign_set", "st_foreign_robust"} -> f \in RobustFronts /\ g \in RobustFronts
       [] k = "ambiguity_after_constraints" -> f = "dro"
+      \* the worst-case objective setters of the robust front ends (minmax / maxmin, minsup / maxinf), both directions
+      [] k \in {"robobj_redefine_lo", "robobj_redefine_hi", "robobj_nonscalar_lo", "robobj_nonscalar_hi"} -> f \in RobustFronts
+      [] k \in {"robobj_foreign_set_lo", "robobj_foreign_set_hi"} -> f \in RobustFronts /\ g \in RobustFronts
       [] k = "st_foreign_norm" -> f \notin {"lp"} /\ g \notin {"lp"}
       [] OTHER -> FALSE
 \* misuses that need the victim NOT to have been solved / to be solved first
